@@ -466,7 +466,13 @@ var setupPool = func() []string {
 	p = append(p, robustOnlyOps...)
 	// deletions and overwrites leave the tombstones the property talks about
 	p = append(p, "adel", "adel", "odel", "tedit", "tedit", "trdel", "trtext", "aadd", "aadd", "ains", "trins")
-	p = append(p, "sync", "sync", "sync", "sync", "sync", "sync", "undo", "redo")
+	// No undo/redo in the setup history: together with GC on the other
+	// replica they leave structural differences between the two setup
+	// replicas that neither the content nor the identities show (restored
+	// nodes recreated at another physical position, two elements under one
+	// identity; the F6/C14b family, convergence properties) and that would
+	// surface later as a divergence blamed on the checked program.
+	p = append(p, "sync", "sync", "sync", "sync", "sync", "sync")
 	return p
 }()
 
